@@ -9,8 +9,8 @@ ca, cb = a["coverage"], b["coverage"]
 ca["extra"] = {"backends": {ca["extra"].get("tls_backend", "native"): dict(ca["extra"], evaluations=ca["evaluations"], distinct_nontrivial=ca["distinct_nontrivial"], wall_s=a["wall_s"]),
                              cb["extra"].get("tls_backend", "rustls"): dict(cb["extra"], evaluations=cb["evaluations"], distinct_nontrivial=cb["distinct_nontrivial"], wall_s=b["wall_s"])}}
 ca["evaluations"] += cb["evaluations"]
-ca["distinct_nontrivial"] += cb["distinct_nontrivial"]   # distinct = matrix cell x TLS back end
-ca["rule"] += "; both TLS back ends (native-tls/OpenSSL and rustls) are exercised by two builds of the same check, distinct counts are per (cell, back end)"
+ca["distinct_nontrivial"] += cb["distinct_nontrivial"]   # distinct = (plan shape | matrix cell) x TLS back end
+ca["rule"] += "; both TLS back ends (native-tls/OpenSSL and rustls) are exercised by two builds of the same check, distinct counts are per (plan shape or matrix cell, back end)"
 ca["exhaustive"] = bool(ca.get("exhaustive")) and bool(cb.get("exhaustive"))
 ca["samples"] = (ca.get("samples") or []) + (cb.get("samples") or [])
 for k in ("kernel_events", "connections_total", "simulated_threads_total", "simulated_seconds"):
